@@ -233,3 +233,90 @@ class _L:
 
     def get_length(self):
         return self.n
+
+
+# ------------------------------------------------------------------------------------------------
+# Loop contract (unbounded + termination) on the sweep loop `while idx < max_idx` of LinearSweepAlgorithm.get_instructions, for code
+# buffers of ARBITRARY length and content, any declared size and any start index.  The decoders are replaced by their contract
+# (proved by sweep_step / C01 on the real constructors): they return an object of some length L >= 2 or raise InvalidInstruction.
+# Invariant: start <= idx <= max_idx.  Variant: max_idx - idx (=> the sweep terminates on every input).
+from pyvc import ubuf  # noqa: E402
+from pyvc.loops import LoopSpec  # noqa: E402
+
+SWEEP = LoopSpec("LinearSweepAlgorithm.get_instructions#0",
+                 invariant=lambda s, L, k: And(L["idx"] >= s.G["idx0"], Or(L["idx"] <= L["max_idx"], L["idx"] == s.G["idx0"])),
+                 variant=lambda s, L, k: L["max_idx"] - L["idx"],
+                 havoc={"idx": lambda s, L: s.G["U"].int("idx@", 0, ubuf.MAXLEN)},
+                 const=("cm", "insn", "is_odex", "max_idx", "size"))
+
+
+class _Decoded:
+    def __init__(self, kind, op, buff, length):
+        self.kind, self.op, self.buff, self.length = kind, op, buff, length
+
+    def get_length(self):
+        return self.length
+
+
+@unit("C02", covers=[(DEX, "LinearSweepAlgorithm.get_instructions")], loops={(DEX, "LinearSweepAlgorithm.get_instructions", 0): SWEEP},
+      samples=300, terminates=True, max_paths=4000,
+      note="loop contract: code of any length and content, any declared size, any start index; decoders replaced by their "
+           "contract (object of length >= 2 or InvalidInstruction); variant max_idx - idx")
+def sweep_loop_unbounded(U):
+    m = U.mod(DEX)
+    if U.mode != "sym":
+        n = U.int("n", 0, 40)
+        code = bytearray(U.bytes("code", n))
+        size = U.int("size", 0, 24)
+        idx0 = 2 * U.int("start", 0, 3)
+        o = U.call(lambda: list(m.LinearSweepAlgorithm.get_instructions(U.cm(), size, code, idx0)))
+        U.ensures("the sweep ends, with the instructions or with InvalidInstruction", o.ok or o.raised(m.InvalidInstruction), exc=repr(o.exc))
+        if o.ok:
+            end = idx0 + sum(i.get_length() for i in o.value)
+            U.ensures("the instructions tile the code from the start index to its end", end == max(min(2 * size, n), idx0) or not o.value,
+                      end=end)
+        return
+    mem = ubuf.SymMem("code")
+    insn = ubuf.SymBuf(mem, 0, U.int("len", 0, ubuf.MAXLEN))
+    size = U.int("size", 0, 1 << 31)
+    idx0 = U.int("idx0", 0, ubuf.MAXLEN)
+    calls = []
+
+    def decoder(kind):
+        def stub(cm, op, buff):
+            from pyvc.core import ctx
+            tag = "%s#%d" % (kind, next(ctx().fresh))
+            if U.bool("%s.invalid" % tag):
+                raise m.InvalidInstruction("unused / truncated instruction")
+            d = _Decoded(kind, op, buff, U.int("%s.length" % tag, 2, 1 << 20))
+            calls.append(d)
+            return d
+        return stub
+    U.substitute(m, "get_instruction", decoder("get_instruction"), "callee contract: an instruction object of length >= 2, or InvalidInstruction")
+    pay = decoder("get_instruction_payload")
+    U.substitute(m, "get_instruction_payload", lambda op, cm, buff: pay(cm, op, buff), "callee contract: a payload object of length >= 2, or InvalidInstruction")
+    U.substitute(m, "get_optimized_instruction", lambda cm, op, buff: decoder("get_optimized_instruction")(cm, op, buff), "callee contract")
+    from pyvc.models import SymKeyDict
+    for nm in ("DALVIK_OPCODES_PAYLOAD", "DALVIK_OPCODES_OPTIMIZED"):
+        if not isinstance(getattr(m, nm), SymKeyDict):
+            U.substitute(m, nm, SymKeyDict(getattr(m, nm)), "same mapping, proxy-key lookup by equality")
+    SWEEP.G = {"U": U, "idx0": idx0}
+    gen = m.LinearSweepAlgorithm.get_instructions(U.cm(), size, insn, idx0)
+    o = U.call(next, gen)
+    if o.raised(StopIteration):
+        U.cover("the sweep ends")
+        return
+    U.ensures("an iteration yields an instruction or reports InvalidInstruction", o.ok or o.raised(m.InvalidInstruction), exc=repr(o.exc))
+    if not o.ok:
+        return
+    obj = o.value
+    U.cover("an arbitrary iteration yields")
+    max_idx = Ite(2 * size > insn.length, insn.length, 2 * size)
+    at = obj.buff.base          # the decoder was handed insn[idx:]
+    U.ensures("the yielded object is the one decoded from the code at the current index, inside the code",
+              And(len(calls) == 1 and calls[0] is obj, isinstance(obj.buff, ubuf.SymBuf) and obj.buff.mem is mem, at >= idx0, at + obj.length <= max_idx))
+    U.ensures("the decoder sees the rest of the buffer (never bytes before the index)", obj.buff.length == insn.length - at)
+    low, high = mem.byte(at), mem.byte(at + 1)
+    U.ensures("the opcode handed to the decoder is the low byte of the code unit (payload pseudo-opcodes: the whole unit)",
+              Or(obj.op == low, And(obj.kind == "get_instruction_payload", obj.op == low + 256 * high)))
+    U.call(next, gen)           # back edge: invariant and variant (the path ends there)
